@@ -45,7 +45,7 @@ class Unit:
             raise Exception('no contract for ' + cid)
         return self.contracts[cid]
 
-    def prove(self, rel, name, impl=None, cid=None, hints=(), loops=(), rename=None, subst=(), nth=0,
+    def prove(self, rel, name, impl=None, cid=None, hints=(), hints_all=(), loops=(), rename=None, subst=(), nth=0,
               attrs='', requires=None, ensures=None, decreases='', replace_sig=None, indent=True,
               extra_requires=None, no_unwind=False):
         """extract the real function and put it under contract `cid`"""
@@ -57,7 +57,7 @@ class Unit:
             req = (req + ', ' if req else '') + extra_requires
         txt = emit_fn(sig, body, requires=req,
                       ensures=ensures if ensures is not None else c.get('ensures', ''),
-                      hints=hints, loops=loops, rename=rename, subst=subst, attrs=attrs,
+                      hints=hints, hints_all=hints_all, loops=loops, rename=rename, subst=subst, attrs=attrs,
                       decreases=decreases or c.get('decreases', ''), replace_sig=replace_sig, no_unwind=no_unwind)
         self.chunks.append(txt)
         self.items.append(dict(name=(cid or name), kind='exec', file=rel, line=line,
